@@ -248,6 +248,21 @@ macro_rules! fail { ($($a:tt)*) => { { #[cfg(kani)] { return Err(String::new());
         Err(_) => Err(panic_msg()),
     }
 }
+/// process-level watchdog of the native searches: a case that does not return within `limit_ms` is a failing input of its own
+/// (the call hangs); `on_hang(case number)` reports it and ends the process
+#[cfg(not(kani))] pub static CASE_NO: std::sync::atomic::AtomicUsize = std::sync::atomic::AtomicUsize::new(usize::MAX);
+#[cfg(not(kani))] pub static CASE_T0: std::sync::atomic::AtomicU64 = std::sync::atomic::AtomicU64::new(0);
+#[cfg(not(kani))] pub fn now_ms() -> u64 { static START: std::sync::OnceLock<std::time::Instant> = std::sync::OnceLock::new(); START.get_or_init(std::time::Instant::now).elapsed().as_millis() as u64 }
+#[cfg(not(kani))] pub fn begin_case(i: usize) { use std::sync::atomic::Ordering::SeqCst; CASE_T0.store(now_ms(), SeqCst); CASE_NO.store(i, SeqCst); }
+#[cfg(not(kani))] pub fn start_monitor(limit_ms: u64, on_hang: fn(usize)) {
+    let _ = now_ms();
+    std::thread::spawn(move || loop {
+        std::thread::sleep(std::time::Duration::from_millis(100));
+        use std::sync::atomic::Ordering::SeqCst;
+        let (i, t0) = (CASE_NO.load(SeqCst), CASE_T0.load(SeqCst));
+        if i != usize::MAX && now_ms().saturating_sub(t0) > limit_ms && CASE_NO.load(SeqCst) == i { on_hang(i); }
+    });
+}
 #[cfg(not(kani))] pub fn panic_msg() -> String {
     let l = PANIC_LOC.lock().map(|g| g.clone()).unwrap_or_default();
     if l.contains("elf/src/") { format!("PANIC: the code under test panicked at {}", l) } else { format!("ORACLE-PANIC: the oracle could not digest the crate's answer (panic at {})", l) }
@@ -313,7 +328,10 @@ const TAGS: &[&str] = &[%s];
 const PANIC_PROPS: &[&str] = &[%s];
 fn main() {
     let p = std::env::var("VERIF_ORACLE_PROP").unwrap_or_default();
-    for (i, c) in %s(%d, %d).iter().enumerate() {
+    let cases = %s(%d, %d);
+    start_monitor(5000, |i| { println!("HUNG {}", i); std::process::exit(4); });
+    for (i, c) in cases.iter().enumerate() {
+        begin_case(i);
         let msg = match guarded(|| %s) { Ok(()) => continue, Err(e) => e };
         // a family serves the properties it is tagged with (or, untagged, tags each message itself): only failures of the
         // property being checked count; a panic INSIDE the crate under test counts for every property
@@ -345,13 +363,20 @@ fn main() {
         bound = nv['bound']
         if rc_ is None or re.search(r'^HANG \d+$', out, re.M): return {'status': 'timeout', 'bound': bound, 'wall_s': wall}
         m = re.search(r'^FOUND (\d+)$', out, re.M)
+        mh = re.search(r'^HUNG (\d+)$', out, re.M)
+        if not m and mh:
+            # a case on which the code under test does not return: a failing input for the properties whose calls the family makes
+            owners = set(nv.get('tags', [])) | set(nv.get('panic_props', [t_ for t_ in nv.get('tags', []) if t_ != 'C16'] + ['C01']))
+            if prop and prop not in owners: return {'status': 'timeout', 'bound': bound, 'wall_s': wall, 'note': 'case %s hangs (not attributed to %s)' % (mh.group(1), prop)}
+            m = mh
         if not m:
             return {'status': 'no-counterexample-within-bound' if 'NONE' in out else 'search-failed', 'bound': bound, 'wall_s': wall, 'tail': out[-600:] if 'NONE' not in out else ''}
         idx = int(m.group(1))
         mc = re.search(r'^CASE (.*)$', out, re.M)
         case = {'family': nv['enum'], 'cases': nv['n'], 'seed': STREAM_SEED, 'index': idx, 'case': (mc.group(1)[:6000] if mc else '')}
         main = ('use elf_verif_replay::*;\nfn main() {\n    // case #%d of the family %s(%d, %d) -- regenerated deterministically; its contents are in the replay file\n'
-                '    let cases = %s(%d, %d);\n    let c = &cases[%d];\n'
+                '    let cases = %s(%d, %d);\n    let c = &cases[%d];\n    println!("CASE {:?}", c);\n'
+                '    start_monitor(5000, |_| { println!("REPLAY FAILS on the real crate: HANG: the call did not return within 5000 ms"); std::process::exit(1); });\n    begin_case(0);\n'
                 '    match guarded(|| %s) {\n        Ok(()) => println!("replay: the real crate behaves as specified on this input"),\n'
                 '        Err(e) => { println!("REPLAY FAILS on the real crate: {}", e); std::process::exit(1); }\n    }\n}\n') % (idx, nv['enum'], nv['n'], STREAM_SEED, nv['enum'], nv['n'], STREAM_SEED, idx, nv['check'])
         open(os.path.join(tmp, 'src', 'bin', 'replay.rs'), 'w').write(main)
